@@ -112,6 +112,6 @@ def run(tier, seed):
         "rule": "per object kind and expansion: all operation sequences up to depth 3 (thorough 4) over {set a low/high, set b, set mid, set_guid, dirty_reset, mark_fully_dirty} plus random sequences of up to 40 operations over up to 28 typed setters; compared byte for byte with the model's wire form",
         "samples": [{"harness": hreq[i][:120], "implementation": ho[i][:100], "model": do[i][:100]} for i in (0, len(hreq) // 2, len(hreq) - 1)],
     }
-    rep.assumptions = ["decoding of a written mask (UpdateMask::read) is exercised by reading every written SMSG_UPDATE_OBJECT back and re-writing it; the decoder is not yet part of the Lean model",
+    rep.assumptions = ["decoding of a written mask (UpdateMask::read) is exercised by reading every written SMSG_UPDATE_OBJECT back and re-writing it; the Lean model of read_inner (readWire, theorem read_write) is not itself compared with the implementation's decoded value, only through the re-written bytes",
                        "setters taking enums / bytes / shorts are covered by the table check only"]
     return rep.finish()
